@@ -15,7 +15,7 @@ from ...core.constraint import (
     GaussianMatrixParameterConstraint,
     GaussianSimpleParameterConstraint,
 )
-from ...core.error import CovMat
+from ...core.error import CovMat, SimpleGaussianError
 from ...core.fitters.nexus import Array, Nexus, Parameter
 from ...core.fitters.nexus_fitter import NexusFitter
 from ...tools import print_dict_as_table
@@ -430,6 +430,23 @@ class FitBase(FileIOMixin, object):
             self._fitter.parameter_to_minimize = self._cost_function.name
             self._implicit_no_errors = False
 
+    def _errors_are_uncorrelated(self):
+        """True if no enabled uncertainty source declares correlations. Unlike the total covariance matrix (projected *x*
+        uncertainties, uncertainties relative to the model) this does not depend on the current parameter values."""
+        for _container in (self._data_container, self._param_model):
+            if _container is None:
+                continue
+            for _error_dict in _container._error_dicts.values():
+                if not _error_dict["enabled"]:
+                    continue
+                _error = _error_dict["err"]
+                if isinstance(_error, SimpleGaussianError):
+                    if _error.corr_coeff != 0:
+                        return False
+                elif not is_diagonal(_error.cov_mat_rel if _error.relative else _error.cov_mat):
+                    return False
+        return True
+
     def _set_data_as_model_ref(self):
         for _err in self._param_model.get_matching_errors({"relative": True}).values():
             _old_ref = _err.reference
@@ -756,7 +773,7 @@ class FitBase(FileIOMixin, object):
 
     @property
     def goodness_of_fit(self):
-        if self._cost_function_pointwise is not None and is_diagonal(self.total_cov_mat):
+        if self._cost_function_pointwise is not None and self._errors_are_uncorrelated() and is_diagonal(self.total_cov_mat):
             _cost_function = self._cost_function_pointwise
         else:
             _cost_function = self._cost_function
@@ -1123,7 +1140,8 @@ class FitBase(FileIOMixin, object):
             check_numerical_range(self.model, "model values (pre-fit)")
 
         if self._cost_function_pointwise is not None:
-            if is_diagonal(self.total_cov_mat):
+            # the total covariance matrix at the start values may be diagonal by coincidence (flat model: no projected x errors)
+            if self._errors_are_uncorrelated() and is_diagonal(self.total_cov_mat):
                 _cost_target = self._cost_function_pointwise.name
             else:
                 _cost_target = self._cost_function.name
